@@ -2,6 +2,8 @@ package main
 
 import (
 	"fmt"
+	"os"
+	"os/exec"
 	"path/filepath"
 	"strings"
 
@@ -50,7 +52,7 @@ func streamSpecAt(name string, n, max int, mixed bool, prefix string) *spec.Spec
 func c17(args []string) {
 	c := chk.New("C17", "exploration", args)
 	c.Build(false)
-	c.Rule("[through components] the streamed item passes MapToTags or IPSelectorSync before its consumer: the consumer is given the FIFO, reads the producer's bytes, no pipe or regular file stays; [shapes] a producer task with two streaming ports and a consumer for each; a consumer with a joined in-port beside the streamed one (bytes, pipes gone at return, the producer named in the consumer's record); producer/consumer pairs connected by an {os:..} port: n in {1,2,4} (and 12, 24, 40 with the producers exiting last) streamed items with maxConcurrentTasks in 2n..2n+2 (the producer's regular output, when it has one, feeds a consumer of its own), payload sizes {0,1,4095,65536,65537,1 MiB} (below and above the pipe buffer), exit order forced both ways (producer or consumer lingers after closing its files), producers with only a streaming output and with an additional regular output, producer and consumer taking different numbers of slots with maxConcurrentTasks exactly their sum, two producer processes streaming into one in-port of the consumer, consumers with an ordinary in-port beside the streamed one, every third producer also prints 220 kB to stdout / stderr, the re-run histories put the consumer's own output below plain / nested / parent-relative / absolute directories, every fourth run in a working directory whose path contains blanks, SCIPIPE_BUFSIZE and yield seeds varied; history 'complete run, then run again'; oracle: sha256 the consumer read through the FIFO == sha256 the producer wrote (both logged by the commands), consumer output == reference, at the instant Run returns no FIFO and no regular file at the stream path, consumer audit names the producer under Upstream[stream path], hang classification incl. FIFO-blocked children (wchan), re-run terminates and leaves inode/mtime/bytes of consumer outputs untouched. distinct_nontrivial = distinct (n, max, size, exit order, mixed, config) runs whose byte comparison was made")
+	c.Rule("[shell pipelines] producers that are pipelines whose first stage is cut off by the second (yes | head, seq | head -c) and consumers that are plain tools: the consumer's copy equals what the pipeline prints; [through components] the streamed item passes MapToTags or IPSelectorSync before its consumer: the consumer is given the FIFO, reads the producer's bytes, no pipe or regular file stays; [shapes] a producer task with two streaming ports and a consumer for each; a consumer with a joined in-port beside the streamed one (bytes, pipes gone at return, the producer named in the consumer's record); producer/consumer pairs connected by an {os:..} port: n in {1,2,4} (and 12, 24, 40 with the producers exiting last) streamed items with maxConcurrentTasks in 2n..2n+2 (the producer's regular output, when it has one, feeds a consumer of its own), payload sizes {0,1,4095,65536,65537,1 MiB} (below and above the pipe buffer), exit order forced both ways (producer or consumer lingers after closing its files), producers with only a streaming output and with an additional regular output, producer and consumer taking different numbers of slots with maxConcurrentTasks exactly their sum, two producer processes streaming into one in-port of the consumer, consumers with an ordinary in-port beside the streamed one, every third producer also prints 220 kB to stdout / stderr, the re-run histories put the consumer's own output below plain / nested / parent-relative / absolute directories, every fourth run in a working directory whose path contains blanks, SCIPIPE_BUFSIZE and yield seeds varied; history 'complete run, then run again'; oracle: sha256 the consumer read through the FIFO == sha256 the producer wrote (both logged by the commands), consumer output == reference, at the instant Run returns no FIFO and no regular file at the stream path, consumer audit names the producer under Upstream[stream path], hang classification incl. FIFO-blocked children (wchan), re-run terminates and leaves inode/mtime/bytes of consumer outputs untouched. distinct_nontrivial = distinct (n, max, size, exit order, mixed, config) runs whose byte comparison was made")
 	c.Assume("one consumer per streaming port; maxConcurrentTasks >= 2n (each producer and its consumer can run at the same time)")
 	rng := c.Rand("c17")
 	type job struct {
@@ -366,6 +368,7 @@ func c17(args []string) {
 	})
 	c17shapes(c)
 	c17throughComponents(c)
+	c17shellProducers(c)
 	c.Finish()
 }
 
@@ -614,5 +617,62 @@ func c17throughComponents(c *chk.Ctx) {
 		}
 		c.Count("streamed_items_compared", n)
 		c.Nontrivial(fmt.Sprintf("streamvia|%s|%d|%v", via, n, cfg))
+	})
+}
+
+// c17shellProducers: the producer of the stream is a shell pipeline whose first stage is ended by SIGPIPE when the last
+// stage has taken what it wants ("yes ACGT | head -n 5000 > {os:out}"): the pipeline as a whole succeeds (its status
+// is that of its last stage), and the consumer receives exactly what it prints.
+func c17shellProducers(c *chk.Ctx) {
+	pipes := []string{"yes ACGT | head -n 5000", "seq 1 200000 | head -c 100000", "yes | head -n 3", "seq 1 50000 | head -n 20000 | tail -n 15000"}
+	run.Parallel(c.Pick(4, 8), func(i int) {
+		root := c.CaseDir()
+		defer c.Drop(root)
+		pl := pipes[i%len(pipes)]
+		want, err := exec.Command("bash", "-c", pl).Output()
+		if err != nil || len(want) == 0 {
+			c.Inconclusive("reference pipeline failed in this environment: " + pl)
+			return
+		}
+		s := &spec.Spec{Name: "shellproducer", MaxTasks: 3, Sources: map[string]string{"go.txt": "go\n"}}
+		s.Procs = append(s.Procs, &spec.Proc{Name: "src", Kind: spec.KFileSource, Files: []string{"go.txt"}},
+			&spec.Proc{Name: "PROD", Kind: spec.KCmd, Cmd: "cat {i:in} > /dev/null; " + pl + " > {os:out}", Outs: []*spec.Out{{Port: "out", Pattern: "sp/payload.txt"}}},
+			&spec.Proc{Name: "CONS", Kind: spec.KCmd, Cmd: "cat {i:in} > {o:out}; sleep 0.4", Outs: []*spec.Out{{Port: "out", Pattern: "copy.txt"}}})
+		s.Conns = append(s.Conns, &spec.Conn{From: "src.out", To: "PROD.in"}, &spec.Conn{From: "PROD.out", To: "CONS.in"})
+		cfg := Cfg{Buf: []int{128, 1}[i%2], Procs: 4, NoHooks: true, SoftSec: 12}
+		desc := map[string]interface{}{"producer": pl, "spec": s, "cfg": cfg}
+		res := execSpec(c, root, s, cfg, nil, false, 0)
+		if res.Hang != "" {
+			if strings.HasPrefix(res.Hang, "deadlock") {
+				c.Violation("streaming-hang|shell-pipeline", res.Hang+"\n"+clip(res.HangInfo, 800), desc)
+			} else {
+				c.Inconclusive(res.Hang)
+			}
+			return
+		}
+		var ps []mon.Problem
+		if res.Exit != 0 || !res.Returned {
+			ps = append(ps, mon.Problem{Sig: "streaming-run-failed", Msg: fmt.Sprintf("exit %d: %s", res.Exit, tail(res.Output(), 400))})
+		}
+		got, _ := os.ReadFile(filepath.Join(res.Wd, "copy.txt"))
+		if string(got) != string(want) {
+			ps = append(ps, mon.Problem{Sig: "stream-bytes-differ", Msg: fmt.Sprintf("the consumer's copy has %d bytes, the pipeline prints %d", len(got), len(want))})
+		}
+		if res.Ret != nil {
+			for _, l := range res.Ret.Listing {
+				if l.Mode == "p" || strings.HasSuffix(l.Path, ".fifo") {
+					ps = append(ps, mon.Problem{Sig: "fifo-left", Msg: "FIFO " + l.Path + " exists when Run returns"})
+				}
+			}
+		}
+		if len(ps) > 0 {
+			for _, sig := range sigSet(ps) {
+				desc["problems"] = mon.Summarize(ps, 10)
+				c.Violation(sig+"|shell-pipeline", fmt.Sprintf("producer %q: %s", pl, strings.Join(mon.Summarize(ps, 4), "\n  ")), desc)
+			}
+			return
+		}
+		c.Count("streamed_items_compared", 1)
+		c.Nontrivial(fmt.Sprintf("shellproducer|%d|%v", i%len(pipes), cfg.Buf))
 	})
 }
